@@ -15,14 +15,15 @@ FILL_BYTES = [0xbe, 0x0a, 0x00, 0x20, 0xff, 0x0d, 0x30]
 
 
 def build(B):
-    lib = B.build_lib("asan", exclude={"monoclock.c"})
+    lib = B.build_lib("asan", exclude={"monoclock.c"}, with_ssl=True)
     need = {"events.c", "events_immediate.c", "events_network.c", "events_network_selectstats.c", "events_timer.c",
             "timerqueue.c", "ptrheap.c", "elasticarray.c", "warnp.c", "network_read.c", "network_write.c", "network_connect.c",
-            "netbuf_read.c", "netbuf_write.c", "http.c", "sock.c", "sock_util.c", "asprintf.c", "noeintr.c"}
+            "netbuf_read.c", "netbuf_write.c", "http.c", "sock.c", "sock_util.c", "asprintf.c", "noeintr.c",
+            "https.c", "network_ssl.c", "network_ssl_compat.c", "netbuf_ssl.c"}
     objs = [lib[k] for k in sorted(need) if k in lib]
     shim = B.compile_c(os.path.join(HERE, "shim.c"))
     core = B.compile_cxx(os.path.join(HERE, "core.cpp"))
-    return B.link(os.path.join(B.BUILD, "bin", "C09"), [core, shim] + objs, libs=["-lrapidcheck"], wraps=WRAPS)
+    return B.link(os.path.join(B.BUILD, "bin", "C09"), [core, shim] + objs, libs=["-lrapidcheck", "-lssl", "-lcrypto"], wraps=WRAPS)
 
 
 MANIFEST = dict(
